@@ -2,7 +2,7 @@
 from __future__ import annotations
 
 from vf import absval as av
-from vf.common import Acc, CpuTimeout, Ctx, cpu_limit, norm_msg
+from vf.common import call_with_headroom, Acc, CpuTimeout, Ctx, cpu_limit, norm_msg
 from vf.gen import filters as gf
 from vf.ref import rfc4511, rfc4515
 
@@ -102,7 +102,8 @@ def run_shard(ctx: Ctx, acc: Acc):
         if i < 3:
             acc.sample({"sentence": text, "tree": tree})
         if i % 2:
-            for brokenform in (text[:-1], text.replace(")", "", 1), "(&" + text):
+            # failures first: truncated, unbalanced, a malformed escape after a well-formed one, a lone backslash
+            for brokenform in (text[:-1], text.replace(")", "", 1), "(&" + text, "(cn=Smith\\2c John\\zz)", "(sn=a\\28b\\2)", "(&" + text + "(cn=\\41\\4)", "(cn=ab\\"):
                 try:
                     with cpu_limit(10):
                         sl.LDAPFilter.from_string(brokenform)
@@ -117,6 +118,14 @@ def deep_sentences(ctx, acc):
     """Sentences nested far deeper than the random part reaches (RFC 4515 puts no bound on nesting; the library parses
     recursively and documents its limit as Python's recursion limit - several hundred levels are accepted)."""
     depths = [129, 160, 250, 350, 420]
+    # before: a moderately nested filter parsed with little stack headroom (refused or parsed - C15 judges that call);
+    # whatever happened there says nothing about the depth of later sentences
+    for hd, hh in ((90, 60), (60, 100), (200, 150)):
+        try:
+            call_with_headroom(hh, lambda: sl.LDAPFilter.from_string("(!" * hd + "(a=b)" + ")" * hd))
+            acc.count("low-headroom-parse-before-deep:parsed")
+        except Exception:
+            acc.count("low-headroom-parse-before-deep:refused")
     for di, d in enumerate(depths):
         for oi, op in enumerate("&|!"):
             if (di * 3 + oi) % ctx.nshards != ctx.shard:
